@@ -79,7 +79,7 @@ def contract_ok(D, start, taps, real):
     return True, ""
 
 
-def features(frame, window, D, filts, real, power, log, energy, walk=None):
+def features(frame, window, D, filts, real, power, log, energy, walk=None, raw=False):
     """filts: list of (start, taps).  Returns the documented coefficients."""
     L = len(frame)
     X = np.fft.fft(np.asarray(frame, dtype=np.float64) * window, D)
@@ -97,19 +97,26 @@ def features(frame, window, D, filts, real, power, log, energy, walk=None):
         a = np.abs(X * H)
         out.append(float(np.sum(a * a)) if power else float(np.sum(a)))
     out = np.array(out)
+    if raw:
+        return out
     if log:
         out = np.log(np.maximum(out, pconfig.LOG_FLOOR_VALUE))
     return out
 
 
 def expected_matrix(x, row, window, D, filts, real, power, log, energy, walk=None):
+    """Returns (expected, borderline): borderline marks coefficients whose pre-log
+    value is within round-off of LOG_FLOOR_VALUE (either side is acceptable there)."""
     frames = row["frames"]
     ncoef = len(filts) + int(energy)
-    out = np.zeros((len(frames), ncoef))
+    raw = np.zeros((len(frames), ncoef))
     x = np.asarray(x, dtype=np.float64)
     for k, idx in enumerate(frames):
-        out[k] = features(x[idx], window, D, filts, real, power, log, energy, walk)
-    return out
+        raw[k] = features(x[idx], window, D, filts, real, power, log, energy, walk, raw=True)
+    fl = pconfig.LOG_FLOOR_VALUE
+    if log:
+        return np.log(np.maximum(raw, fl)), np.abs(raw - fl) <= 1e-6 * fl
+    return raw, np.zeros(raw.shape, dtype=bool)
 
 
 def near_floor(exp):
